@@ -89,6 +89,7 @@ def run(e: Engine, rep: Report):
              'to completion: no break / return / filter, one RCPT per '
              'recipient')
     n9(e, rep)
+    n10(e, rep)
     rep.floor('N1', 9, 'relay implementations / set sites')
     rep.floor('N2', 12, 'client command sites')
 
@@ -1413,3 +1414,81 @@ def n9(e: Engine, rep: Report, rule: str = 'N9'):
     if n < 1:
         rep.error('anchor vanished: the pass over envelope.recipients that '
                   'sends RCPT in _send_envelope')
+
+
+# -------------------------------------------------------------------- N10
+def n10(e: Engine, rep: Report, rule: str = 'N10'):
+    """The pool hands the attempt's caller what the client decided: the
+    request's AsyncResult is read with .get(), which re-raises the relay
+    error the client set.  `.value` of a failed result is None - read as
+    "delivered" by the queue - so it may only be read once success is
+    established (`.successful()` / `.exception is None`)."""
+    rep.rule(rule, 'RelayPool.attempt returns the request\'s result through '
+             'AsyncResult.get() (re-raises the client\'s relay error); '
+             '`.value` is read only under an established success')
+    ctx = e.method_ctx('slimta.relay.pool.RelayPool', 'attempt')
+    g = e.build(ctx, raises=lambda b, n, r: set(),
+                inline=e.inline_same_self(), max_depth=3)
+    fx = e.facts(g)
+    where = ctx.func.qname
+    rep.functions.add(where)
+    # locals holding the request's AsyncResult
+    res = set()
+    for s2 in g.of_kind('stmt'):
+        if isinstance(s2.ast, ast.Assign) and \
+                isinstance(s2.ast.value, ast.Call) and \
+                ast.unparse(s2.ast.value.func).endswith('AsyncResult') and \
+                isinstance(s2.ast.targets[0], ast.Name):
+            res.add(path_of(s2.ast.targets[0], s2.frame))
+    if not res:
+        rep.error('anchor vanished: AsyncResult() in RelayPool.attempt')
+        return
+    rets = [r for r in g.of_kind('stmt') if isinstance(r.ast, ast.Return)
+            and r.frame is g.entry.frame]
+    rep.evaluations += 1
+    if not rets:
+        rep.bad(rule, where, 'the result is returned',
+                'attempt() no longer returns the client\'s result',
+                loc=ctx.func.loc())
+    n_read = 0
+    for n in g.nodes:
+        if n.kind not in ('stmt', 'call', 'test'):
+            continue
+        for x in ast.walk(n.ast):
+            if isinstance(x, ast.Attribute) and x.attr == 'value' and \
+                    isinstance(x.ctx, ast.Load) and \
+                    path_of(x.value, n.frame) in res:
+                n_read += 1
+                rep.evaluations += 1
+                st = fx.at(n) or frozenset()
+                rp = path_of(x.value, n.frame)
+                ok = holds(st, (True, '%s.successful()' % rp)) or \
+                    holds(st, (True, '%s.exception is None' % rp)) or \
+                    holds(st, (False, '%s.exception' % rp))
+                rep.check(ok, rule, where,
+                          'AsyncResult.value read only after success',
+                          '`%s` is read without knowing that the request '
+                          'succeeded: when the client called '
+                          'set_exception() the value is None, which the '
+                          'queue takes for a delivered message - every '
+                          'whole-message failure is reported as success'
+                          % ast.unparse(x), loc=n.loc(),
+                          reason='dominated by successful() / exception '
+                          'is None')
+    for r in rets:
+        v = r.ast.value
+        rep.evaluations += 1
+        via_get = isinstance(v, ast.Call) and \
+            isinstance(v.func, ast.Attribute) and v.func.attr == 'get' and \
+            path_of(v.func.value, r.frame) in res
+        via_value = v is not None and any(
+            isinstance(x, ast.Attribute) and x.attr == 'value' and
+            path_of(x.value, r.frame) in res for x in ast.walk(v))
+        if via_value:
+            continue            # judged above
+        rep.check(via_get, rule, where, 'attempt returns result.get()',
+                  'attempt() returns `%s` instead of the request\'s '
+                  'result.get(): the client\'s verdict (value or relay '
+                  'error) does not reach the queue' % (
+                      ast.unparse(v) if v is not None else None),
+                  loc=r.loc(), reason='return <AsyncResult>.get()')
